@@ -49,17 +49,16 @@ pub fn judge(docs: &[&DocEntry], el: &Element<String>, rank: u64) -> Vec<Violati
 
 pub fn run(ctx: &Ctx) {
     ctx.set("exhaustive", json!(true));
-    let w = ctx.tier.pick(5, 7);
-    let mut cfg = plain_cfg(w);
-    cfg.kinds = vec![
+    let mut all_distinct: HashSet<u64> = HashSet::new();
+    let mut total_evals = 0u64;
+    let mut first = plain_cfg(ctx.tier.pick(5, 6));
+    first.kinds = vec![
         crate::docspace::Kind::Text,
         crate::docspace::Kind::CData,
         crate::docspace::Kind::Ws,
         crate::docspace::Kind::Comment,
     ];
-    if w > 6 {
-        cfg.max_weight = 6; // four item kinds: weight 6 is ~10^7 documents
-    }
+    for cfg in [first, wide_cfg(ctx.tier.pick(4, 5)), deep_cfg(ctx.tier.pick(6, 8))] {
     let describe = cfg.describe();
     let sp = Space::new(cfg);
     let res = par_for(
@@ -92,21 +91,21 @@ pub fn run(ctx: &Ctx) {
             }
         },
     );
-    let mut distinct: HashSet<u64> = HashSet::new();
     for a in res.accs {
-        distinct.extend(a);
+        all_distinct.extend(a);
     }
-    ctx.set("evaluations", json!(res.processed));
-    ctx.set("distinct_nontrivial", json!(distinct.len()));
-    ctx.set("single_document_space", json!(describe));
-    ctx.set("single_documents", json!({"space_size": sp.len(), "visited": res.processed}));
+    total_evals += res.processed;
+    ctx.push("single_document_spaces", json!({"space": describe, "size": sp.len(), "visited": res.processed}));
     if !res.complete {
         ctx.set("exhaustive", json!(false));
-        ctx.set("cap", json!(format!("wall budget: {} of {} single documents", res.processed, sp.len())));
+        ctx.push("caps", json!(format!("wall budget: {} of {} single documents", res.processed, sp.len())));
     }
+    }
+    ctx.set("evaluations", json!(total_evals));
+    ctx.set("distinct_nontrivial", json!(all_distinct.len()));
     let searches: Vec<(usize, usize)> = ctx.tier.pick(vec![(2, 4), (3, 1)], vec![(2, 8), (3, 3)]);
     for (aw, depth) in searches {
-        let alphabet = materialise(plain_cfg(aw));
+        let alphabet = materialise(history_cfg(aw));
         let mut events: Vec<Event> = alphabet.iter().cloned().map(Event::doc).collect();
         events.extend(elementless().into_iter().map(Event::doc));
         let judge_t = |t: &Transition| match t.succ {
